@@ -19,7 +19,6 @@ import (
 
 	"cuelabs.dev/go/oci/ociregistry"
 	"cuelabs.dev/go/oci/ociregistry/ocimem"
-	"cuelabs.dev/go/oci/ociregistry/ociref"
 	"cuelabs.dev/go/oci/ociregistry/ociserver"
 	"github.com/opencontainers/go-digest"
 	ocispec "github.com/opencontainers/image-spec/specs-go/v1"
@@ -27,6 +26,7 @@ import (
 
 	"verif/harness/internal/gen"
 	"verif/harness/internal/rec"
+	"verif/harness/internal/refg"
 	"verif/harness/vt"
 )
 
@@ -183,19 +183,19 @@ func run(s Script, v *vt.V) {
 
 	// (4) the backend never sees a syntactically invalid name, tag or digest
 	for _, c := range calls {
-		if c.Method != "Repositories" && !ociref.IsValidRepository(c.Repo) {
+		if c.Method != "Repositories" && !refg.ValidRepo(c.Repo) {
 			v.Failf("invalid-repo-to-backend", "%s: backend call %v with invalid repository name", desc, c)
 			return
 		}
-		if c.Method == "MountBlob" && !ociref.IsValidRepository(c.FromRepo) {
+		if c.Method == "MountBlob" && !refg.ValidRepo(c.FromRepo) {
 			v.Failf("invalid-repo-to-backend", "%s: backend call %v with invalid source repository", desc, c)
 			return
 		}
-		if c.Tag != "" && !ociref.IsValidTag(c.Tag) {
+		if c.Tag != "" && !refg.ValidTag(c.Tag) {
 			v.Failf("invalid-tag-to-backend", "%s: backend call %v with invalid tag", desc, c)
 			return
 		}
-		if c.Digest != "" && !ociref.IsValidDigest(c.Digest) {
+		if c.Digest != "" && !refg.ValidDigest(c.Digest) {
 			v.Failf("invalid-digest-to-backend", "%s: backend call %v with invalid digest", desc, c)
 			return
 		}
@@ -203,7 +203,7 @@ func run(s Script, v *vt.V) {
 			v.Failf("invalid-tag-to-backend", "%s: backend call %v with an empty tag", desc, c)
 			return
 		}
-		if c.DescDigest != "" && !ociref.IsValidDigest(c.DescDigest) {
+		if c.DescDigest != "" && !refg.ValidDigest(c.DescDigest) {
 			v.Failf("invalid-digest-to-backend", "%s: backend PushBlob with invalid digest %q", desc, c.DescDigest)
 			return
 		}
@@ -278,7 +278,7 @@ func run(s Script, v *vt.V) {
 		if !need("Docker-Content-Digest") {
 			return false
 		}
-		if d := hdr.Get("Docker-Content-Digest"); !ociref.IsValidDigest(d) {
+		if d := hdr.Get("Docker-Content-Digest"); !refg.ValidDigest(d) {
 			v.Failf("bad-header", "%s: Docker-Content-Digest %q is not a digest", desc, d)
 			return false
 		}
@@ -540,7 +540,12 @@ func genScript(t *rapid.T) Script {
 			s.Headers[name] = rapid.SampledFrom(vals).Draw(t, "h_"+name)
 		}
 	}
-	hopt("Range", []string{"bytes=0-0", "bytes=0-", "bytes=1-2", "bytes=5-4", "bytes=0--1", "bytes=-1", "bytes=0-1,2-3", "garbage", "bytes=99999-", "bytes=17-", "bytes=18-", "bytes=0-99999", "bytes=", "bytes=a-b", "bytes=9223372036854775807-", "bytes=0-9223372036854775807", "bytes=1-18", "bytes=0-18", "bytes=5-18", "bytes=17-18", "bytes=0-2", "bytes=1-2", "bytes=0-17", "bytes=16-17"})
+	hopt("Range", []string{"bytes=0-0", "bytes=0-", "bytes=1-2", "bytes=5-4", "bytes=0--1", "bytes=-1", "bytes=0-1,2-3", "garbage", "bytes=99999-", "bytes=17-", "bytes=18-", "bytes=0-99999", "bytes=", "bytes=a-b", "bytes=9223372036854775807-", "bytes=0-9223372036854775807", "bytes=1-18", "bytes=0-18", "bytes=5-18", "bytes=17-18", "bytes=0-2", "bytes=1-2", "bytes=0-17", "bytes=16-17",
+		"bytes=-", "bytes= - ", "bytes=0-1,-", "bytes=,", "bytes=--", "bytes=-,-", "bytes=-0", "bytes= ", "bytes=0- ,", "=", "bytes"})
+	if rapid.IntRange(0, 5).Draw(t, "rangeGrammar") == 0 {
+		// anything over the alphabet of the range grammar
+		s.Headers["Range"] = "bytes=" + rapid.StringOfN(rapid.SampledFrom([]rune("0123456789-, ")), 0, 8, -1).Draw(t, "rangeSpec")
+	}
 	hopt("Content-Range", []string{"0-0", "0-4", "5-9", "5-4", "1-0", "x-y", "0-99999999999999999999", "-1-2", "5-", "-", "0-17", "5-22", "9223372036854775806-9223372036854775807", "4-8"})
 	hopt("Content-Type", []string{ocispec.MediaTypeImageManifest, ocispec.MediaTypeImageIndex, "application/vnd.verif.opaque", "garbage", "application/octet-stream", ""})
 	switch rapid.IntRange(0, 5).Draw(t, "clKind") {
@@ -555,7 +560,7 @@ func genScript(t *rapid.T) Script {
 var prop = &vt.Prop[Script]{
 	ID:   "C06",
 	Name: "ServeAnyRequest",
-	Rule: "requests built by hand (so that unparseable paths are reachable) and served in-process by ociserver over a recording, close-tracking wrapper of a pre-populated ocimem (3 repositories incl. a/blobs/uploads, blobs, image + index manifests with subject, tags, an upload in progress) under every Options combination: method in {GET,HEAD,PUT,POST,PATCH,DELETE,OPTIONS,'',lower case,garbage}; path = one of 8 endpoint templates with slots from known / valid (routing words, 255-1000 byte names) / hostile names, digests, tags and upload ids, then mutated (segment dropped / duplicated / emptied, trailing slash, double slash, other prefix); query n,last,digest,mount,from each absent / empty / valid / malformed / repeated, raw malformed queries; Range, Content-Range, Content-Type headers from valid and boundary values (0-0, 5-4, 1-0, MaxInt64, negative, non-numeric); bodies (empty, 1 byte, blob, valid image / index manifests, truncated JSON) with matching, unknown (-1) and mismatching Content-Length; oracle = no panic; status >= 400 => OCI JSON error document whose status equals the specification's for its code; 2xx => the endpoint's mandated headers (Location, Docker-Content-Digest, Range, Content-Range consistent with the body, Content-Length == body); no backend call with an invalid repository / tag / digest; every reader and writer obtained from the backend closed; non-trivial = the request reached a handler or was rejected for a reason other than a foreign path; distinct = (method, template, mutation, status, header set, query)",
+	Rule: "requests built by hand (so that unparseable paths are reachable) and served in-process by ociserver over a recording, close-tracking wrapper of a pre-populated ocimem (3 repositories incl. a/blobs/uploads, blobs, image + index manifests with subject, tags, an upload in progress) under every Options combination: method in {GET,HEAD,PUT,POST,PATCH,DELETE,OPTIONS,'',lower case,garbage}; path = one of 8 endpoint templates with slots from known / valid (routing words, 255-1000 byte names) / hostile names, digests, tags and upload ids, then mutated (segment dropped / duplicated / emptied, trailing slash, double slash, other prefix); query n,last,digest,mount,from each absent / empty / valid / malformed / repeated, raw malformed queries; Range, Content-Range, Content-Type headers from valid and boundary values (0-0, 5-4, 1-0, MaxInt64, negative, non-numeric, lone '-' and ',' forms, generated strings over the range alphabet); bodies (empty, 1 byte, blob, valid image / index manifests, truncated JSON) with matching, unknown (-1) and mismatching Content-Length; oracle = no panic; status >= 400 => OCI JSON error document whose status equals the specification's for its code; 2xx => the endpoint's mandated headers (Location, Docker-Content-Digest, Range, Content-Range consistent with the body, Content-Length == body); no backend call with a repository, tag or digest that an independent reference reading of the grammars rejects; every reader and writer obtained from the backend closed; non-trivial = the request reached a handler or was rejected for a reason other than a foreign path; distinct = (method, template, mutation, status, header set, query)",
 	Gen:  genScript,
 	Run:  run,
 }
